@@ -210,6 +210,55 @@ func VerifH_C05_stack() {
 	checkAgainstRef(p.code, nil, nil, 0, 0, "stack")
 }
 
+// VerifH_C05_storage: the transient array lives for the whole charstring: values stored with put inside a
+// (local or global) subroutine are visible after the return, and values stored before a call are visible in
+// the callee and after it.
+func VerifH_C05_storage() {
+	putInSubr := verifChoose("where", 3) // 0: put before the call, get after; 1: put in the subr, get after; 2: put before, get in the subr
+	global := verifBool("global")
+	sub := &progB{}
+	main := &progB{}
+	putTo := main
+	if putInSubr == 1 {
+		putTo = sub
+	}
+	putTo.small("v", -100, 100)
+	putTo.small("i", 0, 31)
+	putTo.op(t2put)
+	getIn := main
+	if putInSubr == 2 {
+		getIn = sub
+	}
+	// the call: index 0 of a one-entry INDEX has the biased number -107
+	call := []byte{28, 0xFF, 0x95, byte(t2callsubr)}
+	if global {
+		call[3] = byte(t2callgsubr)
+	}
+	if putInSubr == 1 {
+		main.code = append(main.code, call...)
+	}
+	if putInSubr == 2 {
+		getIn.small("k", 0, 31)
+		getIn.op(t2get)
+		main.code = append(main.code, call...)
+	} else {
+		if putInSubr == 0 {
+			main.code = append(main.code, call...)
+		}
+		getIn.small("k", 0, 31)
+		getIn.op(t2get)
+	}
+	sub.op(t2return)
+	main.op(t2hmoveto)
+	main.op(t2endchar)
+	idx := cffIndex{sub.code}
+	if global {
+		checkAgainstRef(main.code, nil, idx, 0, 0, "storage")
+	} else {
+		checkAgainstRef(main.code, idx, nil, 0, 0, "storage")
+	}
+}
+
 // VerifH_C05_subr: subroutine bias at both thresholds, local and global calls, call depth limit.
 func VerifH_C05_subr() {
 	sizes := []int{0, 1, 1239, 1240, 33899, 33900, 40000}
@@ -277,6 +326,34 @@ func VerifH_C05_depth() {
 	_, err := info.decodeCharString(code)
 	_, ok := refInterpret(code, subrs, nil, 0, 0)
 	verifAssert((err == nil) == ok, "call depth limit as specified (10)")
+	verifReach("done")
+}
+
+// VerifH_C05_recursion: subroutines that call each other with solver-chosen targets (self recursion, cycles,
+// chains), with the call in the middle or in last position of the subroutine (no return after it): decoding
+// terminates and accepts exactly the programs whose call depth stays within the limit of 10.
+func VerifH_C05_recursion() {
+	const n = 3
+	subrs := make(cffIndex, n)
+	for i := 0; i < n; i++ {
+		switch verifChoose("form", 3) {
+		case 0: // leaf
+			subrs[i] = []byte{28, 0, 5, byte(t2hmoveto), byte(t2return)}
+		default: // call another subroutine (index = operand + 107), followed by return or by nothing
+			lo := verifU8("target")
+			verifAssume(lo >= 0x95 && lo < 0x95+n)
+			subrs[i] = []byte{28, 0xFF, lo, byte(t2callsubr), byte(t2return)}
+			if verifBool("tail") {
+				subrs[i] = subrs[i][:4]
+			}
+		}
+	}
+	code := []byte{28, 0xFF, 0x95, byte(t2callsubr), byte(t2endchar)}
+	info := &decodeInfo{subr: subrs}
+	verifUnwind(3000) // a decoder that honours the depth limit needs a few dozen iterations
+	_, err := info.decodeCharString(code)
+	_, ok := refInterpret(code, subrs, nil, 0, 0)
+	verifAssert((err == nil) == ok, "recursive subroutines: accepted iff the call depth stays within 10")
 	verifReach("done")
 }
 
